@@ -88,14 +88,8 @@ fn main() {
             c
         };
         let scripted_fail = std::env::var("VSTUB_PACK_FAIL_SEQ").ok().map(|s| s.split(',').any(|x| x.trim().parse::<u64>().ok() == Some(ordinal))).unwrap_or(false);
-        // --path <dir> | --path=<dir> | -p <dir>
-        let path_arg: Option<String> = a.iter().enumerate().find_map(|(i, t)| {
-            if t == "--path" || t == "-p" {
-                a.get(i + 1).cloned()
-            } else {
-                t.strip_prefix("--path=").map(String::from)
-            }
-        });
+        // the app path as pack's grammar sees it (--path <dir>, --path=<dir>, -p <dir>)
+        let path_arg: Option<String> = vharness::props::c17::pack_build_path(&a[1..]);
         if let Some(p) = path_arg.as_ref() {
             {
                 let bytes: Vec<u8> = p.chars().map(|c| c as u8).collect();
@@ -187,6 +181,14 @@ fn main() {
         let msg = std::env::var("VSTUB_FAIL_MSG").unwrap_or_else(|_| "vstub: injected failure".to_string());
         println!("{msg}");
         eprintln!("{msg}");
+        if code < 0 {
+            // die by a signal instead of exiting
+            let _ = std::io::stdout().flush();
+            unsafe {
+                libc::kill(libc::getpid(), -code);
+            }
+            std::thread::sleep(std::time::Duration::from_secs(5));
+        }
         std::process::exit(code);
     }
     print!("{stdout}");
